@@ -152,6 +152,17 @@ func checkRoundTrip(c TextCase) (v ev.Verdict) {
 			}
 		}
 	}()
+	if len(c.Text)%3 == 0 {
+		// first a typed decode that is abandoned inside an object by a hard error (a malformed
+		// ,string payload): the codec recycles its decoder states, and what such a call leaves
+		// behind must not reach the decodes below
+		var junk struct {
+			M map[string]int `json:"m"`
+			N int            `json:"n,string"`
+		}
+		_ = ev.Safe(func() { _ = fj.Unmarshal([]byte(`{"m":{"q":1},"n":"x12","z":{"a":{"b":1}}}`), &junk) })
+		v.Classes = append(v.Classes, "after-an-abandoned-typed-decode")
+	}
 	for _, d := range decs {
 		// target kinds: any always; map / slice when the root fits
 		targets := []func() any{func() any { var a any; return &a }}
